@@ -247,6 +247,66 @@ def mon_C20(s):
     return out
 
 
+class SpecImpl(core.Impl):
+    """plays ops on a conductor built from a given native spec dict"""
+
+    def __init__(self, spec_dict):
+        core.Impl.__init__(self)
+        self.spec_dict = spec_dict
+
+    def play(self, op):
+        if op["op"] == "init":
+            from orquesta import conducting
+            from orquesta.specs import native as native_specs
+            self.spec = native_specs.WorkflowSpec(self.spec_dict)
+            self.c = conducting.WorkflowConductor(self.spec, context={}, inputs=render.undict(op.get("inputs") or {}))
+            self.c.get_workflow_status()
+            return {"res": None, "state": self.state()}
+        return core.Impl.play(self, op)
+
+
+def mon_C20_dictexpr(s):
+    """an input (and a publish) whose value is a dictionary with an expression inside: the inline
+    form `k='{"port": "<% ... %>", "tag": "x"}'` must mean what the long form means"""
+    if not s["ops"] or s["ops"][0]["op"] != "init":
+        return []
+    lang = s.get("lang", "yaql")
+    e = "{{ ctx('x') }}" if lang == "jinja" else "<% ctx(x) %>"
+    long_spec = render.to_spec(s["def"], lang)
+    target = None
+    for name, t in long_spec["tasks"].items():
+        if "with" not in t and name not in gen.CMDS:
+            target = name
+            break
+    if target is None:
+        return []
+    val = {"port": e, "tag": "x"}
+    long2 = json.loads(json.dumps(long_spec))
+    t = long2["tasks"][target]
+    inp = t.get("input")
+    if inp is not None and not isinstance(inp, dict):
+        return []
+    t["input"] = dict(inp or {}, cfgx=val)
+    short2 = json.loads(json.dumps(long2))
+    ts = short2["tasks"][target]
+    if not all(_inlineable(v) for v in ts["input"].values()):
+        return []
+    ts["action"] = ts["action"] + " " + " ".join("%s=%s" % (k, _inline(v)) for k, v in ts["input"].items())
+    del ts["input"]
+    a, b = SpecImpl(long2), SpecImpl(short2)
+    try:
+        for i, o in enumerate(s["ops"]):
+            ra, rb = a.play(o), b.play(o)
+            d = core.first_diff(json.loads(core.dumps(ra)), json.loads(core.dumps(rb)))
+            if d:
+                v = V("inline dictionary with an expression inside differs from its long form: %s" % d[:240], i, _d11(short2))
+                v["spec_long"], v["spec_short"] = long2, short2
+                return [v]
+    except Exception as ex:
+        return [V("dictionary-with-expression twin raised %s: %s" % (type(ex).__name__, str(ex)[:200]), 0)]
+    return []
+
+
 def _d11(spec):
     return None
 
@@ -376,5 +436,5 @@ def extra_monitor(pid, s):
     if pid == "C14":
         return mon_C14(s)
     if pid == "C20":
-        return mon_C20(s)
+        return mon_C20(s) + mon_C20_dictexpr(s)
     return []
